@@ -34,7 +34,9 @@ func vrfMA(i int) multiaddr.Multiaddr {
 	return a
 }
 
-var vrfMetaKeys = []string{"k1", "", "k2"}
+// metadata keys: one made only of characters of the "meta-" prefix, the empty
+// key (documented as not transported), one that repeats the prefix
+var vrfMetaKeys = []string{"team", "", "meta-a"}
 
 func vrfMapEq(a, b map[string]string, keys []string) bool {
 	r := true
@@ -156,6 +158,16 @@ func VrfC08Query() {
 			po.UserAllocations = append(po.UserAllocations, vrfP(i))
 		}
 	}
+	// one more entry under an arbitrary key
+	symKey := ""
+	if vrf_param("symbolic_meta_key") == 1 {
+		symKey = vrf_nondet_string("meta_key")
+		vrf_assume(vrf_and(symKey != "", vrf_and(symKey != "team", symKey != "meta-a")))
+		if po.Metadata == nil {
+			po.Metadata = map[string]string{}
+		}
+		po.Metadata[symKey] = vrf_nondet_string("meta_value_of_arbitrary_key")
+	}
 	qs, err := po.ToQuery()
 	vrf_assert(err == nil, "C08.query.encode-ok")
 	vals, err := url.ParseQuery(qs)
@@ -185,6 +197,10 @@ func VrfC08Query() {
 		}
 	}
 	vrf_assert(vrfMapEq(back.Metadata, want, vrfMetaKeys), "C08.query.metadata")
+	if symKey != "" {
+		v, ok := back.Metadata[symKey]
+		vrf_assert(ok && v == po.Metadata[symKey], "C08.query.metadata-arbitrary-key")
+	}
 	vrf_assert(back.PinUpdate.Equals(po.PinUpdate), "C08.query.pin-update")
 	vrf_assert(len(back.Origins) == len(po.Origins), "C08.query.origins")
 	for i := range po.Origins {
